@@ -5,6 +5,7 @@ import Mouette.Lemmas.C02Rewrap
 import Mouette.Lemmas.C02Witness
 import Mouette.Lemmas.C02StepsLemmas
 import Mouette.Lemmas.C02Rows
+import Mouette.Lemmas.C02HistoryLemmas
 import Mouette.Generated.C02Structure
 import Mouette.Model.DriveC02
 /-
@@ -264,9 +265,7 @@ theorem prepare_never_fails (cfg : Cfg) (r : Raw)
     obtain ⟨idss, hids⟩ := cellFaceIds_total ((facesAfter cfg r).map keyF) r.cells ha
     have : ∃ q, genCellFaces (stages cfg r) = .ok q := by
       unfold genCellFaces
-      split
-      · rw [stages_faces, stages_cells, hids]; exact ⟨_, rfl⟩
-      · exact ⟨_, rfl⟩
+      rw [stages_faces, stages_cells, hids]; exact ⟨_, rfl⟩
     obtain ⟨q, hq⟩ := this
     rw [hq]; exact ⟨_, rfl⟩
 
@@ -312,19 +311,17 @@ theorem corner_records (cfg : Cfg) (r p : Raw) (h0 : r.prepared = false) (h : pr
   simp only [gfc_cells, pe_cells, pv_cells, completed_cells] at b
   exact ⟨a.1, a.2, b.1, b.2⟩
 
-/-- cell-face records of a freshly built mesh, whatever the switches: cell after cell, the records of a cell
+/-- cell-face records of ANY mesh built from not-yet-prepared data (fresh raw data, or a re-wrapped mesh to which
+elements were appended: the records are always rebuilt), whatever the switches: cell after cell, the records of a cell
 are `idsOf` of its table faces, i.e. (`cell_face_records_meaning`) going through the table in order every face
 whose vertex set is stored gets exactly one record pointing to such a stored face, a face that is not stored
 gets none; the owner list is `owners` of the records, so every record carries its cell -/
-theorem cell_face_records (cfg : Cfg) (r p : Raw) (h0 : r.prepared = false) (h : prepare cfg r = .ok p)
-    (hcf : r.cfElem = []) :
+theorem cell_face_records (cfg : Cfg) (r p : Raw) (h0 : r.prepared = false) (h : prepare cfg r = .ok p) :
     ∃ idss : List (List Nat), p.cfElem = idss.flatten ∧ p.cfAdj = owners idss ∧
       CellRecords (p.faces.map keyF) p.cells idss := by
   obtain ⟨q, hq, hp⟩ := prepare_ok cfg r p h0 h
   obtain ⟨_, _, _, hqf, hqc, _⟩ := genCellFaces_fields _ _ hq
-  have hs : (stages cfg r).cfElem = [] := by
-    unfold stages; simp [(completed_corners cfg r).2.2.2.2.1, hcf]
-  obtain ⟨idss, hi, e1, e2⟩ := genCellFaces_regen _ _ hq hs
+  obtain ⟨idss, hi, e1, e2⟩ := genCellFaces_regen _ _ hq
   subst hp
   refine ⟨idss, e1, e2, ?_⟩
   simp only [hqf, hqc]
@@ -594,5 +591,81 @@ example :
                          cells := [.nparray [0,1,2,3]] } with
       | .ok y => (y.edges.head?, y.cells, y.faces.length)
       | .error _ => (none, [], 0)) = (some (.tuple (0, 3)), [.list [0,1,2,3]], 4) := by decide
+
+
+/-! ## histories on one object (round 3) -/
+
+/-- translated: the regeneration criterion of `_generate_face_corners` as written (`nc == 0 or nc != nf`, with the two
+resets) is the model's -/
+theorem face_corner_guard_bridge (r : Raw) :
+    genFaceCorners r =
+      if C02S.faceCornerGuard r.fcElem.length r.fcAdj.length (r.faces.map List.length).sum = true
+      then { r with fcElem := r.faces.flatten, fcAdj := owners r.faces } else r := by
+  have e1 : (C02S.faceCornerGuard r.fcElem.length r.fcAdj.length (r.faces.map List.length).sum = true) ↔
+      (r.fcElem.length = 0 ∨ r.fcElem.length ≠ (r.faces.map List.length).sum) := by
+    simp only [C02S.faceCornerGuard, Bool.or_eq_true, decide_eq_true_eq]
+  unfold genFaceCorners
+  simp only [e1]
+
+/-- translated: the criterion of `_generate_cell_corners` as written (count compared with the cells, as for faces) and
+its inner "adjacency only" test are the model's -/
+theorem cell_corner_guard_bridge (r : Raw) :
+    genCellCorners r =
+      if C02S.cellCornerGuard r.ccElem.length r.ccAdj.length (r.cells.map List.length).sum = true then
+        if C02S.cellCornerAdjOnlyGuard r.ccElem.length r.ccAdj.length (r.cells.map List.length).sum = true
+        then { r with ccAdj := [], ccElem := r.ccElem ++ owners r.cells }
+        else { r with ccElem := r.cells.flatten, ccAdj := owners r.cells }
+      else r := by
+  have e1 : (C02S.cellCornerGuard r.ccElem.length r.ccAdj.length (r.cells.map List.length).sum = true) ↔
+      (r.ccElem.length = 0 ∨ r.ccAdj.length = 0 ∨ r.ccElem.length ≠ (r.cells.map List.length).sum
+        ∨ r.ccAdj.length ≠ (r.cells.map List.length).sum) := by
+    simp only [C02S.cellCornerGuard, Bool.or_eq_true, decide_eq_true_eq, or_assoc]
+  have e2 : (C02S.cellCornerAdjOnlyGuard r.ccElem.length r.ccAdj.length (r.cells.map List.length).sum = true) ↔
+      (r.ccAdj.length = 0 ∧ r.ccElem.length > 0) := by
+    simp only [C02S.cellCornerAdjOnlyGuard, Bool.and_eq_true, decide_eq_true_eq]
+  unfold genCellCorners
+  simp only [e1, e2]
+
+/-- translated: `_generate_cell_faces` resets and rebuilds the records unconditionally, as the model does -/
+theorem cell_faces_always_rebuilt_bridge (r q : Raw) (h : genCellFaces r = .ok q) :
+    C02S.cellFacesAlwaysRebuilt = true ∧
+    ∃ idss, cellFaceIds (r.faces.map keyF) r.cells = .ok idss ∧ q.cfElem = idss.flatten ∧ q.cfAdj = owners idss :=
+  ⟨by decide, genCellFaces_regen r q h⟩
+
+/-- stale corner records are rebuilt (elements appended since they were generated) -/
+theorem stale_corner_records_are_rebuilt (r : Raw) :
+    (r.fcElem.length ≠ (r.faces.map List.length).sum →
+      (genFaceCorners r).fcElem = r.faces.flatten ∧ (genFaceCorners r).fcAdj = owners r.faces) ∧
+    (r.ccElem.length ≠ (r.cells.map List.length).sum → r.ccAdj.length ≠ 0 →
+      (genCellCorners r).ccElem = r.cells.flatten ∧ (genCellCorners r).ccAdj = owners r.cells) :=
+  ⟨gfc_regen_stale r, gcc_regen_stale r⟩
+
+/-- The n-th construction on a used object. A built mesh with canonical corner records (what `corner_records` gives
+for the first construction) gets vertices, edges, faces, cells appended through its containers and is built again from
+itself (`appendElems` = append, then `RawMeshData(mesh)`), with any switches: the finished object again has one corner
+record per face-vertex and cell-vertex incidence in element order with its owner, for old and new elements; its
+cell-face records are those of `cell_face_records` (always rebuilt); edges and faces obey `edges_normalised`,
+`edges_complete_once`, `faces_from_cells`, which hold for every not-yet-prepared input. -/
+theorem corner_records_after_append (cfg2 : Cfg) (b : Built) (v2 : List (List Rat)) (e2 : List (Int × Int))
+    (f2 c2 : List (List Nat)) (p : Raw)
+    (hfc : b.raw.fcElem = b.raw.faces.flatten ∧ b.raw.fcAdj = owners b.raw.faces)
+    (hcc : b.raw.ccElem = b.raw.cells.flatten ∧ b.raw.ccAdj = owners b.raw.cells)
+    (h : prepare cfg2 (appendElems b v2 e2 f2 c2) = .ok p) :
+    p.fcElem = p.faces.flatten ∧ p.fcAdj = owners p.faces ∧ p.ccElem = p.cells.flatten ∧ p.ccAdj = owners p.cells :=
+  Mouette.Prepare.corner_records_after_append cfg2 b v2 e2 f2 c2 p hfc hcc h
+
+/-- the same raw data wrapped by two meshes: the second constructor (any class, any switches) recomputes nothing and
+shares exactly the containers the first one prepared -/
+theorem second_mesh_on_same_data (cfg cfg' : Cfg) (r p : Raw) (k : Nat) (h : prepare cfg r = .ok p) :
+    direct cfg' p k = .ok ⟨k, p⟩ := direct_on_prepared cfg cfg' r p k h
+
+/-- non-vacuity: a tetrahedron, then a second one appended to the built mesh -/
+example :
+    (match prepare {} { verts := [[0,0,0],[1,0,0],[0,1,0],[0,0,1]], cells := [[0,1,2,3]] } with
+      | .ok p1 =>
+        (match prepare {} (appendElems ⟨3, p1⟩ [[1,1,1]] [] [] [[1,2,3,4]]) with
+          | .ok p => (p.faces.length, p.ccElem, p.ccAdj, p.cfAdj)
+          | .error _ => (0, [], [], []))
+      | .error _ => (0, [], [], [])) = (7, [0,1,2,3,1,2,3,4], [0,0,0,0,1,1,1,1], [0,0,0,0,1,1,1,1]) := by decide
 
 end Mouette.Props.C02
